@@ -192,6 +192,16 @@ Qed.
 Lemma bytevec_len n (s : bytes) c : c + n <= len s -> len (sub s c (c + n)) = n.
 Proof. intros H. rewrite len_sub; lia. Qed.
 
+(* any usize length: too long for what remains => EndOfBuffer, cursor unmoved (no overflow of cursor + length) *)
+Theorem bytevecN_spec n s c :
+  c <= len s ->
+  bytevecN n s c = if (N.of_nat (len s - c) <? n)%N then PErr EEndOfBuffer c
+                   else POk (sub s c (c + N.to_nat n), c, c + N.to_nat n) (c + N.to_nat n).
+Proof.
+  intros Hc. unfold bytevecN. destruct (N.ltb_spec (N.of_nat (len s - c)) n) as [H|H]; [reflexivity|].
+  apply bytevec_ok. lia.
+Qed.
+
 (* the specification value is the conventional one: examples *)
 Example val_be_ex : val Big [1; 2; 3; 4]%N = 16909060%N. Proof. reflexivity. Qed.
 Example val_le_ex : val Little [1; 2; 3; 4]%N = 67305985%N. Proof. reflexivity. Qed.
